@@ -36,7 +36,7 @@ Task: make ONE small, realistic change to the non-test Go source in the worktree
 {style}
 Do not edit or add files ending in _test.go inside the project's existing tests, do not touch files named verif_export.go, and do not change go.mod.
 
-Then write a DEMONSTRATION that fails with your change and passes without it: either a new Go test file (e.g. {wt}/hotline/zz_seed_demo_test.go or {wt}/internal/mobius/zz_seed_demo_test.go, package-internal so it can reach unexported names) or a small program. Confirm both directions yourself: run it with your change (must fail) and with the change stashed (`git stash` the source change only, keep the demo; must pass), then restore the change.
+Then write a DEMONSTRATION that fails with your change and passes without it: either a new Go test file (e.g. {wt}/hotline/zz_seed_demo_test.go or {wt}/internal/mobius/zz_seed_demo_test.go, package-internal so it can reach unexported names) or a small program. Confirm both directions yourself: run it with your change (must fail) and with the change reversed (save it with `git diff -- . ':(exclude)*zz_seed_demo*' > /tmp/<your-own-name>.diff`, `git apply -R` it, keep the demo; must pass), then re-apply the change with `git apply`. Do NOT use `git stash`: the stash is shared between all worktrees of the repository and other people work in sibling worktrees.
 
 Deliver, in {base}/out/ :
   - patch.diff : output of `git -C {wt} diff -- . ':(exclude)*zz_seed_demo*'` (the source change only, no demo file)
